@@ -55,9 +55,9 @@ DESIGN_REF = "DESIGN.md §3 C15"
 EXHAUSTIVE = {"quick": "all behaviour sequences of length <=3 (x3 client modes); all LINE-event crash points of request_profile + 6 file-op points; all 70 two-writer schedules",
               "thorough": "all behaviour sequences of length <=4 (x3 client modes); crash points x2 body sizes; all 70 schedules x 3 body-size pairs"}
 MIN_COUNTERS = {"quick": {"seq_histories": 1500, "seq_steps": 5000, "crash_points": 20, "crash_followups": 20, "schedules": 70, "schedule_steps_observed": 250,
-                          "scan_runs": 3, "scan_requests": 90, "wrongserver_pairs": 60},
+                          "scan_runs": 3, "scan_requests": 90, "wrongserver_pairs": 60, "wrongserver_url_override_pairs": 20},
                 "thorough": {"seq_histories": 12000, "seq_steps": 45000, "crash_points": 40, "crash_followups": 40, "schedules": 210, "schedule_steps_observed": 750,
-                             "scan_runs": 30, "scan_requests": 900, "wrongserver_pairs": 400}}
+                             "scan_runs": 30, "scan_requests": 900, "wrongserver_pairs": 400, "wrongserver_url_override_pairs": 40}}
 
 # FI identities, incl. free-text ORG/FID as found in the bundled FI database ("Cavion/Phoenix") and worse
 IDENTS = [("ORG1", "F1"), ("Cavion/Phoenix", "125108887"), ("ORG1", "F1"), ("A B&C", "x:y*?"), (None, None), ("..", "../up"), ("ORG1", None), ("Ünï©ode", "汉")]
@@ -532,9 +532,15 @@ def scan_monitor(ctx, net):
             finished = {}
             upgrade_at = rng.randint(5, 25)
 
+            bad = []  # replies that are no profile (as a real server answers some of the probed versions / formats)
+
             def handler(rec):
                 with lock:
-                    n = len(sent)
+                    n = len(sent) + len(bad)
+                    if n % 5 == 3 or n % 7 == 5:
+                        body = ofxserver.profile_error(2000 + n) if n % 5 == 3 else ofxserver.GARBAGE[n % len(ofxserver.GARBAGE)]
+                        bad.append(body)
+                        return Reply(body, delay=rng.random() * 0.01)
                     g = 2 if n < upgrade_at else 4
                     body = ofxserver.profile_ok(dt_text(g), URL, URL, finame=f"G{g}", extra="s" * (n * 13 % 200), v1=n % 2 == 0, pretty=n % 3 == 0)
                     sent.append((g, body, time.monotonic()))
@@ -562,7 +568,12 @@ def scan_monitor(ctx, net):
                         ctx.violation("concurrent/scan-request-returns-mixed", f"scan run {r}: a request returned {len(data)} bytes that are not one whole profile", case)
                 except BaseException as e:
                     nfail += 1
-                    ctx.violation("concurrent/scan-request-fails", f"scan run {r}: a concurrent request failed: {e!r}"[:300], case)
+                    last_exc = e
+            ctx.count("scan_bad_replies", len(bad))
+            if nfail != len(bad):
+                # each request that got an error / garbage reply fails, each that got a profile succeeds - whatever the other threads got
+                ctx.violation("concurrent/scan-outcomes-do-not-match-replies", f"scan run {r}: {len(bad)} requests were answered with an error or garbage, "
+                              f"{nfail} requests failed (of {len(futures)})", case)
             final = cache_files()
             for name, data in final.items():
                 if data not in whole:
@@ -592,7 +603,10 @@ def wrongserver_monitor(ctx, net):
     combos = [(ua, ia, ub, ib) for ua in urls[:3] for ia in idents for ub in urls for ib in idents]
     rng = random.Random(f"C15w/{ctx.seed}")
     rng.shuffle(combos)
-    n = 160 if ctx.tier == "quick" else 1200
+    forced = [(ua, ia, ub, ia) for ua in urls[:3] for ub in urls if ub != ua for ia in idents[:5]]  # one FI at two URLs
+    rng.shuffle(forced)
+    combos = forced[:48 if ctx.tier == "quick" else 75] + combos
+    n = 208 if ctx.tier == "quick" else 1275
     for i, (ua, ia, ub, ib) in enumerate(combos[:n]):
         if i % ctx.nshards != ctx.shard:
             continue
@@ -613,15 +627,27 @@ def wrongserver_monitor(ctx, net):
         net.handler = handler
         ctx.ev()
         ctx.count("wrongserver_pairs")
-        case = {"monitor": "wrongserver", "a": [ua, ia], "b": [ub, ib]}
+        # every third pair of one FI at two URLs: the second request is made by the SAME client object through the per-call url= override
+        override = ia == ib and ua != ub and (i // ctx.nshards) % 3 != 1
+        case = {"monitor": "wrongserver", "a": [ua, ia], "b": [ub, ib], "override": override}
+        ra2 = None
         try:
             net.set_client("A" + str(ia))
-            ra = OFXClient(ua, org=ia[0], fid=ia[1]).request_profile().read()
+            client_a = OFXClient(ua, org=ia[0], fid=ia[1])
+            ra = client_a.request_profile().read()
             net.set_client("B" + str(ib))
-            rb = OFXClient(ub, org=ib[0], fid=ib[1]).request_profile().read()
+            if override:
+                ctx.count("wrongserver_url_override_pairs")
+                rb = client_a.request_profile(url=ub).read()
+                net.set_client("A2")
+                ra2 = client_a.request_profile().read()
+            else:
+                rb = OFXClient(ub, org=ib[0], fid=ib[1]).request_profile().read()
         except BaseException as e:
             ctx.violation("wrong-server/request-fails", f"pair {case}: {e!r}", case)
             continue
+        if ra2 is not None and ((b"SRV-%d-" % urls.index(ua)) not in ra2 or R.parse_datetime(asked["A2"][0]) != R.parse_datetime(dt_text(8))):
+            ctx.violation("wrong-server/url-override-disturbed-own-cache", f"after request_profile(url={ub}) the client of {ua} asked with {asked['A2'][0]} and got {ra2[-80:]!r}", case)
         b_asked = asked["B" + str(ib)][0] if ("B" + str(ib)) != ("A" + str(ia)) else asked["A" + str(ia)][1]
         if same:
             if R.parse_datetime(b_asked) != R.parse_datetime(dt_text(8)):
